@@ -334,6 +334,65 @@ func runC01(k *kernel.K) {
 			}})
 		})
 	}
+	// Think time: an origin that has a request takes a while (less than the proxy's timeout) before
+	// it answers. The timeout bounds an exchange, or an idle wait - not the sum of the idle wait
+	// before a request and the time that request then takes.
+	if gaps {
+		thought := map[string]bool{}
+		k.AddSource(func(add func(kernel.Action)) {
+			if k.Draining || timeout <= 4*time.Second {
+				return
+			}
+			for oi, o := range origins {
+				for ci, oc := range o.Conns {
+					if oc.Closed || oc.SawRST || oc.Replied >= len(oc.P.Msgs) {
+						continue
+					}
+					key := fmt.Sprintf("%d.%d.%d", oi, ci, oc.Replied)
+					if thought[key] {
+						continue
+					}
+					// (connections that are idle meanwhile must not reach the timeout: the proxy may
+					// close those)
+					max := timeout - 3*time.Second
+					busy := 0
+					for _, c := range clients {
+						if c.Alive() && !c.Idle() {
+							busy++
+						}
+					}
+					if busy != 1 || n.InFlightTotal() > 0 {
+						// (only while this exchange is the only thing going on and nothing is on
+						// the wire: time that passes for a request still in flight elsewhere is
+						// that connection's idle time)
+						return
+					}
+					for _, c := range clients {
+						if !c.Alive() || !c.Idle() {
+							continue
+						}
+						last := c.LastResp
+						if c.LastSend > last {
+							last = c.LastSend
+						}
+						if rem := timeout - (k.Now() - last) - 2*time.Second; rem < max {
+							max = rem
+						}
+					}
+					if max < time.Second {
+						return
+					}
+					add(kernel.Action{Key: "origin thinks " + key, W: 1, Class: kernel.Clock, Do: func() {
+						thought[key] = true
+						d := time.Duration(1+k.S.Draw(int(max/time.Second))) * time.Second
+						k.Probe("origin_think_time")
+						k.Advance(d)
+					}})
+					return
+				}
+			}
+		})
+	}
 	k.RunUntil(func() bool {
 		for _, c := range clients {
 			if !c.Done() {
